@@ -53,22 +53,7 @@ Proof. vm_compute. reflexivity. Qed.
 Lemma b23_endpoint_590 : inverse_within b23p_F b23t_F t_590 tol_1e8 false = true.
 Proof. vm_compute. reflexivity. Qed.
 
-(** the full-strength statement at the upper end point of the saturation line is REFUTED by the
-    faithful model: sat(tcritical) rounds above pcritical, so tsat rejects it (finding
-    tsat:upper-endpoint; the oracle replays the same witness on the implementation) *)
 Definition sat_tsat_defined_at (t : float) : Prop := exists z, then_F sat_F tsat_F t = Some z.
-
-Lemma tsat_upper_endpoint_refuted_proof :
-  exists t, PrimFloat.leb t_triple t = true /\ PrimFloat.leb t tcritical_F = true /\ ~ sat_tsat_defined_at t.
-Proof.
-  exists tcritical_F. split; [vm_compute; reflexivity|]. split; [vm_compute; reflexivity|].
-  intros [z H]. vm_compute in H. discriminate H.
-Qed.
-
-(** ... and why: the saturation pressure computed at tcritical exceeds pcritical *)
-Lemma sat_tcritical_above_pcritical :
-  exists p, sat_F tcritical_F = FRet [p] /\ PrimFloat.ltb pcritical_F p = true /\ tsat_F p = FNone.
-Proof. eexists. split; [vm_compute; reflexivity|]. split; vm_compute; reflexivity. Qed.
 
 (** non-vacuity of the inverse clause away from the finding: an interior double *)
 Example sat_tsat_interior : inverse_within sat_F tsat_F 100 1e-9 false = true /\ inverse_within sat_F tsat_F 373.9 1e-9 false = true.
